@@ -956,7 +956,9 @@ where
     where
         I: 'src;
 
-    const NONCONSUMPTION_IS_OK: bool = A::NONCONSUMPTION_IS_OK && B::NONCONSUMPTION_IS_OK;
+    // Items of either source may be yielded here: if one of them may yield an item without consuming input (`or_not`,
+    // `into_iter`), so may the sequence
+    const NONCONSUMPTION_IS_OK: bool = A::NONCONSUMPTION_IS_OK || B::NONCONSUMPTION_IS_OK;
 
     #[inline(always)]
     fn make_iter<M: Mode>(
